@@ -151,10 +151,34 @@ func genC02(r *rand.Rand, tier string, env *Env) []Case {
 	for i := 0; i < nProg; i++ {
 		o := wellFormedEntryOpts()
 		o.exotic = 0.8
+		if i%2 == 1 {
+			o.inline = 0.35
+		}
 		p := genProgram(r, o)
 		cases = append(cases, Case{Kind: "program", Ops: []Op{p.genOp()}, Oracles: []Op{{"c02.lexical", p.genOp().Args}}})
 	}
 	return cases
+}
+
+// escalatePassText: a disagreement on a clean-up pass becomes whole programs made of that text
+func escalatePassText(oracle ...string) func(d Disagreement) []Case {
+	return func(d Disagreement) []Case {
+		if !strings.HasPrefix(d.Op.Name, "pass.") || len(d.Op.Args) != 1 {
+			return nil
+		}
+		empty := [][]byte{{}, {}, {}, {}, {}, {}}
+		t := strings.NewReplacer("\n", "", "\r", "").Replace(string(d.Op.Args[0]))
+		var cases []Case
+		for _, prog := range []string{t + "\n", "x" + t + "\n", t + "y\n", "##!> assemble\n" + t + "\n##!=>\nz\n##!<\n"} {
+			args := append(append([][]byte{}, empty...), []byte(prog))
+			c := Case{Kind: "escalated-pass-text", Ops: []Op{{"gen.run", args}}}
+			for _, o := range oracle {
+				c.Oracles = append(c.Oracles, Op{o, args})
+			}
+			cases = append(cases, c)
+		}
+		return cases
+	}
 }
 
 func init() {
@@ -163,7 +187,7 @@ func init() {
 		ID: "C02", LeanMods: []string{"CrsProps.C02"},
 		Corr: "K3 (each clean-up pass alone and composed vs Crs.Passes, on synthetic printer-like text incl. all token bigrams in the thorough tier), K5 (Operator.Run)",
 		Rule: "programs as for C01 with a high share of exotic atoms (quotes, backslashes, \\x5c, control and non-ASCII characters, \\s classes, metacharacters next to group boundaries); synthetic texts of 1..9 tokens from a 46-token alphabet; non-trivial = program compiles / text is non-empty; distinct by bytes",
-		Gen:  genC02,
+		Gen:  genC02, Escalate: escalatePassText("c02.lexical"),
 		Assume: []string{"control characters may appear as the letter escapes \\t \\n \\f \\r \\v \\a that Go's printer emits (pinned by the existing suite), besides hex escapes",
 			"known finding D09: an escaped backslash followed by a quote (`a\\\\\"b`) is printed with a bare quote"},
 	}
